@@ -78,6 +78,7 @@ class World(object):
         self.fault_fired = []   # [(k, hook name, arg)]
         self.cleanup_log = []
         self.phase = 1
+        self.attempt = {}
         self._out = {}
         self._converr = {}
         self._undef = {}
@@ -89,11 +90,15 @@ class World(object):
 
     # -- lazily created symbols ----------------------------------------------------------------
     def out(self, sid, src):
-        k = (self.phase, sid, src)
+        att = self.attempt.get(sid, 1)
+        k = (self.phase, att, sid, src)
         if k not in self._out:
             dom = self.opts.get("out_dom", {})
+            if self.phase == 2 and "out_dom2" in self.opts:
+                dom = self.opts["out_dom2"]
             lohi = dom.get(sid, dom.get("*"))
-            name = "out%s:%s:%s" % ("" if self.phase == 1 else str(self.phase), sid, src)
+            name = "out%s%s:%s:%s" % ("" if self.phase == 1 else str(self.phase),
+                                      "" if att == 1 else "@%d" % att, sid, src)
             self._out[k] = self.sx.int(name, *lohi) if lohi else self.sx.int(name)
         return self._out[k]
 
@@ -173,6 +178,16 @@ class World(object):
         self.runner.context = Context(self.runner)
         if o.get("hooks"):
             self.runner.hooks = self._make_hooks()
+        if o.get("autoretry"):
+            from behave.contrib.scenario_autoretry import patch_scenario_with_autoretry
+            for e in self.scenario_elems():
+                sc = e.obj
+
+                def counted(*a, _orig=sc.run, _sid=e.eid, **k):
+                    self.attempt[_sid] = self.attempt.get(_sid, 0) + 1
+                    return _orig(*a, **k)
+                sc.run = counted
+                patch_scenario_with_autoretry(sc, max_attempts=o["autoretry"])
         if o.get("continue_after_failed_step"):
             for e in self.scenario_elems():
                 e.obj.continue_after_failed_step = True
@@ -286,11 +301,21 @@ class World(object):
                         se = w.obj2elem.get(id(sc))
                         arg = "%s/%s" % (se.eid if se else "?", arg)
                 w.hooklog.append((name, str(arg) if arg is not None else None))
+                owner = arg
+                if "tag" in name:
+                    cands = [e for e in w.elems(("feature", "rule", "scenario", "row")) if arg in e.tags]
+                    owner = cands[0].eid if cands else None
+                    if len(cands) > 1:
+                        se = w.obj2elem.get(id(getattr(context, "scenario", None)))
+                        owner = se.eid if se is not None else owner
+                elif "all" in name:
+                    owner = None
                 if w.opts.get("hook_probe"):
                     w.opts["hook_probe"](w, name, context, args)
                 for f in (fault, fault2):
                     if f is not None and f == k:
-                        w.fault_fired.append((k, name, arg))
+                        osid = str(owner).split("/")[0] if owner else None
+                        w.fault_fired.append((k, name, arg, owner, w.attempt.get(osid, 1)))
                         w.events.append(("hook-raised", name, arg))
                         if w.sx.bool("fault_is_assert:%d" % len(w.fault_fired)):
                             raise AssertionError("hook fault %s" % name)
@@ -325,6 +350,7 @@ class World(object):
         self.calls = []
         self.events = []
         self.hooklog = []
+        self.fault_fired = []
         self.runner = ModelRunner(self.config, features=self.features, step_registry=self.registry)
         self.runner.context = Context(self.runner)
         return self.run()
